@@ -24,8 +24,8 @@ func init() {
 		RuleDocs: []string{
 			"C08.R1 E5 carried-state rule on edgeMultiComputeRecordSpecs",
 			"C08.R2 E3 congruence of the min() operands and of the returned record specifications per mode",
-			"C08.R3 must-pass-through of the validity check in the reconfiguration methods; clauses of valid()",
-			"C08.R5 every sample read of the edge finder is dominated by the true branch of its search-window test (index <= last)",
+			"C08.R3 must-pass-through of the validity check in the reconfiguration methods; clauses of valid(), and their combination decided for all 16 truth assignments of the four atoms by conditional constant propagation with the comparisons assumed",
+			"C08.R5 every sample read of the edge finder is dominated by the true branch of its search-window test (index <= last); the index stored in the result on a found edge does not use the search-start parameter except through the loop variable",
 			"C08.R4 E3 window relation at the edge-finder call; E6 proof of trigger index >= look-back",
 			"C08.R6 the step tested by the edge finder is between neighbouring samples: raw[i] - raw[i-1] as polynomials, or a value carried round the loop that is raw[first-1] on entry and the current sample on every way round (including the ways that reject a candidate)",
 			"C08.R7 the pending trigger is turned into a record early only when v + nsamp < (the value handed on as the first frame not yet searched), proven from the guards that control the call (also through a predicate helper); guards that establish v + nsamp < end of the data instead are reported (comparisons written in a narrower integer type are read as the values themselves for that evidence only)",
